@@ -601,7 +601,7 @@ def select__array_fold_left_right_functions(self: XPathFunction, context: ta.Con
     array_: XPathArray = self.get_argument(context, required=True, cls=XPathArray)
     zero = self.get_argument(context, index=1)
 
-    result = zero
+    result = [] if zero is None else zero
 
     if self.symbol == 'fold-left':
         for item in array_.items(context):
